@@ -8,7 +8,8 @@ PROPS = {
     "C05": {
         "lean": ["ZenoModel.Props.C05"],
         "theorems": ["merge_homomorphism", "merge_homomorphism3", "value_after_merge", "merge_comm",
-                     "merge_assoc", "acc_batches_commute"],
+                     "merge_assoc", "acc_batches_commute", "truncate_keeps_window",
+                     "series_merge_semantics", "series_merge_comm"],
         "engines": [
             {"name": "seq", "n_quick": 4000, "n_thorough": 400000, "n_search": 20000},
         ],
